@@ -3,7 +3,7 @@
    Proofs/PrimProofs.v.  Models: Base/Prim.v (transliteration of
    common/construct_utils.py, common/utils.py, construct FormatField/CString/
    PrefixedArray, dwarf/structs.py _InitialLengthAdapter). *)
-From PV Require Import Base.Bytes Base.Prim Spec.PrimSpec Proofs.PrimProofs.
+From PV Require Import Base.Bytes Base.Outcome Base.Prim Spec.PrimSpec Proofs.PrimProofs Gen.PyFuns Proofs.PyFunsC16.
 
 (* every valid ULEB128 encoding, minimal or not, any length, any following bytes *)
 Theorem C16_uleb_valid : forall bs v tail,
@@ -39,6 +39,48 @@ Print Assumptions C16_sleb_truncated.
 Theorem C16_sleb_total : forall bs, all_bytes bs = true -> sleb_decode bs = sleb_spec bs.
 Proof. exact sleb_decode_total. Qed.
 Print Assumptions C16_sleb_total.
+
+(* ---- the same for the decoders TRANSLATED from the live Python source on every run
+   (Gen/PyFuns.v gen_ULEB128_parse / gen_SLEB128_parse, by tools/gen/pyast.py: the `while True`
+   loop reading one byte per iteration becomes a structural Fixpoint over the unread bytes).
+   First: the translated code equals the hand model on EVERY byte string; then the three theorems. *)
+Theorem C16_translated_uleb_is_model : forall bs, gen_ULEB128_parse bs = res_of_dec (uleb_decode bs).
+Proof. exact gen_uleb_is_model. Qed.
+Print Assumptions C16_translated_uleb_is_model.
+
+Theorem C16_translated_sleb_is_model : forall bs, gen_SLEB128_parse bs = res_of_dec (sleb_decode bs).
+Proof. exact gen_sleb_is_model. Qed.
+Print Assumptions C16_translated_sleb_is_model.
+
+Theorem C16_translated_uleb_valid : forall bs v tail,
+  uleb_valid bs v -> gen_ULEB128_parse (bs ++ tail) = Ok (v, tail).
+Proof. exact gen_uleb_valid. Qed.
+Print Assumptions C16_translated_uleb_valid.
+
+Theorem C16_translated_uleb_truncated : forall bs v p q,
+  uleb_valid bs v -> bs = p ++ q -> q <> [] -> gen_ULEB128_parse p = Err EParse.
+Proof. exact gen_uleb_truncated. Qed.
+Print Assumptions C16_translated_uleb_truncated.
+
+Theorem C16_translated_uleb_total : forall bs,
+  all_bytes bs = true -> gen_ULEB128_parse bs = res_of_dec (uleb_spec bs).
+Proof. exact gen_uleb_total. Qed.
+Print Assumptions C16_translated_uleb_total.
+
+Theorem C16_translated_sleb_valid : forall bs v tail,
+  sleb_valid bs v -> gen_SLEB128_parse (bs ++ tail) = Ok (v, tail).
+Proof. exact gen_sleb_valid. Qed.
+Print Assumptions C16_translated_sleb_valid.
+
+Theorem C16_translated_sleb_truncated : forall bs v p q,
+  sleb_valid bs v -> bs = p ++ q -> q <> [] -> gen_SLEB128_parse p = Err EParse.
+Proof. exact gen_sleb_truncated. Qed.
+Print Assumptions C16_translated_sleb_truncated.
+
+Theorem C16_translated_sleb_total : forall bs,
+  all_bytes bs = true -> gen_SLEB128_parse bs = res_of_dec (sleb_spec bs).
+Proof. exact gen_sleb_total. Qed.
+Print Assumptions C16_translated_sleb_total.
 
 (* fixed-width integers, both byte orders, any width *)
 Theorem C16_uint_valid : forall le n v tail,
